@@ -31,6 +31,12 @@ UNITS = {
                  "precondition of new(): rows are Ok, seqs strictly increasing within [start_seq,last_seq], last_seq < u64::MAX, summed estimated size fits usize (SQL `ORDER BY seq` + `seq >= start AND seq <= end` at the call sites; not proved)",
                  "error rows: after Some(Err) nothing is promised (callers break)",
              ]),
+        dict(kind="verus", name="c08_chunk_range_v", template="specs/c08_chunk_range.vrs",
+             under_contract=["chunk_range"], vacuity=["chunk_range"],
+             trusted=["step_by_map: std `RangeInclusive::step_by(n)` yields start, start+n, … while <= end, and `.map(f)` applies f to exactly those values in order (std adapter contract; the bounded Kani unit c08_chunk_range runs the real std adapters)",
+                      "Ord::min on CrsqlDbVersion = the field's min (derived Ord on a one-field tuple struct)"],
+             assumptions=["generic T instantiated with CrsqlDbVersion (the only instantiation: parallel_sync); the lazy iterator is viewed as the sequence it yields",
+                          "precondition: end + chunk_size <= u64::MAX (versions are SQLite integers < 2^63) and chunk_size >= 1 (the call site passes 10)"]),
         dict(kind="kani", name="c08_chunk_range", crate="kani/c08_chunk_range",
              harnesses=[
                  dict(name="chunk_range_size10_len_le_45", bound="chunk size 10 (the call site's), range length <= 45, any start < 2^62"),
@@ -414,6 +420,7 @@ _also("C10", "c10_apply_trigger_boot", "C03", "c03_apply_trigger_boot", "fully b
 _also("C02", "c02_commit_order", "C10", "c10_commit_order", "a changeset counts as held only after its bookkeeping was persisted")
 _also("C08", "c08_chunker", "C05", "c05_chunker", "send_change_chunks is proved against the chunker's contract; the contract itself is proved here")
 _also("C08", "c08_chunker", "C07", "c07_chunker", "a local transaction is announced through the same chunker: ranges tile 0..=last_seq")
+_also("C08", "c08_chunk_range_v", "C04", "c04_chunk_range_v", "a Full need is cut into sub-ranges by chunk_range before it is sent; their union is the need (unbounded twin of the bounded Kani unit)")
 
 for _p in ("C05", "C08", "C03"):
     UNITS[_p].append(dict(kind="structural", name=_p.lower() + "_row_error", check="chunker_error_stops", file="crates/klukai-agent/src/api/peer/mod.rs", fn="send_change_chunks",
